@@ -66,6 +66,16 @@ CLAIMED = {
             'satisfy all coherence clauses of the statement and every in-domain instance must complete.',
             'clauses are exactly the statement; operations leaving the IOAPI data model are out of domain and not '
             'explored (DESIGN section 7)', 'DESIGN.md section 4 C10'),
+    'C11': ('A', 'model_checking',
+            'bounded-exhaustive enumeration of window combinations over ROW/COL/LAY/TSTEP on the real IOAPI slicer vs independent origin/level/calendar arithmetic',
+            'Every IOAPI file of the universe (shapes up to 3x3x3x3, start instants crossing year end, leap day and '
+            'midnight, TSTEP 30 min / 1 h / 24 h / 100 h) x every combination of contiguous windows given as positive '
+            'int, negative int or any unit-stride slice spelling over 1-2 (quick) / 1-4 (thorough) dimensions: XORIG/'
+            'YORIG must move by first-index x cell size exactly, VGLVLS must be the bit-identical sub-range, decoded '
+            'times must be the sub-range of independently computed instants, SDATE/STIME the first of them, TSTEP '
+            'unchanged.',
+            'dyadic cell sizes (exact float arithmetic); calendar arithmetic in mc/ref/rtime.py is independent of the library',
+            'DESIGN.md section 4 C11'),
 }
 
 PENDING_REASON = ('check not built yet in this session; planned per DESIGN.md section 4 '
